@@ -8,6 +8,7 @@ mod refmodel;
 mod report;
 mod runner;
 
+mod c04;
 mod c05;
 
 use report::{machinery, Report, Tier};
@@ -52,6 +53,7 @@ fn main() {
     let mut rep = Report::new(&id, tier);
     rep.replay_mode = ctx.replay.is_some();
     match id.as_str() {
+        "C04" => c04::run(&ctx, &mut rep),
         "C05" => c05::run(&ctx, &mut rep),
         _ => machinery(&format!("no check registered for {id}")),
     }
